@@ -24,8 +24,27 @@
   structural event of the history so far (known_findings.txt, C13/*); none has a small fix (the tree item carries no
   key; a collision-aware write path needs a read).  One crash was repaired: GC dereferenced a nil collision item
   (/repo 667fdc2).  A violation outside the listed classes is still reported.
+
+  COLLISION-PATH MODEL (GoBeans/Model/Collide.lean, 35 lemma modules): what the code actually does with colliding keys —
+  data files and ONE tree slot per hash as in the bucket model, the collision table (`compareAndSet` incl. the
+  `reason == "gc"` rule), the hint manager as far as `getItem` consults it (in-memory split buffers, dumped split files,
+  merged index, `maxChunkID`), `Bucket.get` (table → tree → key compare → hint lookup → `compareAndSet`), the write path
+  reading the slot of the key HASH, restarts with the tree dump kept or rebuilt from hints (collision.yaml kept), hint
+  dump / merge, GC with merge on/off — defects included.  Tied by engine `collide`: every reply and position, after
+  every operation the collision table, what the write path sees for every key and every *.idx.s file, after a pass
+  range / statistics / data files (158 100 operations without a reply difference when it was written; on every run
+  since).  The model reproduces every KNOWN deviation from the reference map (twelve minimal witness histories
+  W1–W12, one per mechanism, in corpus/C13/collide-witnesses.txt and as `decide` theorems), so that a difference
+  between model and implementation is behaviour that is NOT known (seed C13-d).
+  Proved: for a hash injective on the keys used the collision-path model answers like the non-colliding bucket model and
+  the reference map, GC requests included (`C13_collide_extends_store`; restarts: stated, not proved); on the
+  decidable class `SafeR` of histories — any hash function, any number of colliding keys: automatic-revision sets,
+  incr, get, meta-get, flush, dumper rounds, deletes of keys the table knows, restarts with the tree kept or rebuilt
+  once every key with a written hash-mate is in the table — EVERY reply is the reference map's up to version numbers
+  (`C13_safe_with_restarts`): C13 holds for the code on that class.
 -/
 import GoBeans.Lemmas.GCLog
+import GoBeans.Lemmas.Collide
 open Store Spec StoreLemmas
 
 /-- the last record of a hash class -/
@@ -116,3 +135,16 @@ theorem C13_tombstone_replay_loses_other_key :
     marker of B) the read path serves A its own record. -/
 example : readVia hCol (fun h => classLast hCol h logAB) logAB [97] = some (⟨0, 0⟩, rA) := by decide +kernel
 example : readVia hCol (fun h => classLast hCol h logAB) logAB [98] = some (⟨0, 512⟩, rBdel) := by decide +kernel
+
+/-! the collision-path model -/
+
+theorem C13_injective_hash_answers_like_reference (hash : Spec.Key → Nat) (K : Spec.Key → Prop) (hInj : StoreLemmas.InjOn hash K)
+    (cfg : Collide.Cfg) (hcv : cfg.s.checkVHash = false) (R : Nat) (ops : List Collide.Op) (hlen : R + ops.length < 2147483647)
+    (hops : ∀ op ∈ ops, CollideLemmas.ExtOK K cfg R op) :
+    (Collide.run hash cfg {} ops).2 = (StoreLemmas.hrun hash cfg.s {} (ops.filterMap CollideLemmas.toH)).2
+    ∧ (Collide.run hash cfg {} ops).2 = (StoreLemmas.hspec { checkVHash := cfg.s.checkVHash } [] (ops.filterMap CollideLemmas.toH)).2 :=
+  _root_.C13_collide_extends_store hash K hInj cfg hcv R ops hlen hops
+
+/-- C13 for the code on the class SafeR: any hash function, any number of colliding keys, restarts included -/
+theorem C13_safe_class_with_restarts : CollideLemmas.C13_safe_with_restarts_statement :=
+  _root_.C13_safe_with_restarts
